@@ -12,13 +12,14 @@ Ltac look :=
     | rewrite PositiveMap.gso by (first [apply succ_ne | apply succ_ne' | lia])
     | rewrite Pos.eqb_refl ].
 
-Ltac red1 := cbv -[PositiveMap.find PositiveMap.add PositiveMap.map Pos.succ Pos.eqb Pos.compare N.ltb N.add afix gfix notok].
+Ltac red1 := cbv -[PositiveMap.find PositiveMap.add PositiveMap.map Pos.succ Pos.eqb Pos.compare N.ltb N.add afix gfix notok
+                   g_check g_unify g_arith g_div g_divres g_copy].
 Ltac sym := repeat (red1; look).
 
-Goal forall kinds g f ctx s sp sp1 sp2,
-  notok (r_expr (afix kinds (gfix g) f) (EBinOp Add (EInt 1 sp1) (EStr "a" sp2) sp) ctx s).
+Goal forall kinds G f ctx s sp sp1 sp2,
+  notok (r_expr (afix kinds G f) (EBinOp Add (EInt 1 sp1) (EStr "a" sp2) sp) ctx s).
 Proof.
   intros. destruct f as [|[|f]]; try apply notok_fuel.
   - cbn [afix]. sym. apply notok_oof.
-  - cbn [afix]. destruct g as [|[|[|g]]]; cbn [gfix]; sym; auto with notok.
-Qed.
+  - cbn [afix]. Time sym. Show.
+Abort.
